@@ -429,6 +429,27 @@ def check_function(repo, fn: FuncInfo, descriptor_attrs: Optional[Dict[str, Set[
             (isinstance(x, ast.Compare) and any(isinstance(o, (ast.In, ast.NotIn)) for o in x.ops) and norm(x.comparators[0]) == norm(cont)))]
         if not reads:
             continue
+        # a memo, not just a table filled in a loop: the store happens on a MISS - it is control-dependent on a test of
+        # a value read from the container (x = c.get(k) ... if x is None) or of a membership test (k not in c) / KeyError handler
+        read_names = set()
+        for rd in reads:
+            par_ = parent_of.get(rd)
+            if isinstance(par_, ast.Assign):
+                for t_ in par_.targets:
+                    if isinstance(t_, ast.Name):
+                        read_names.add(t_.id)
+        on_miss = False
+        cur = parent_of.get(n)
+        while cur is not None and cur is not fn.node:
+            if isinstance(cur, ast.If):
+                tnames = {y.id for y in ast.walk(cur.test) if isinstance(y, ast.Name)}
+                if tnames & read_names or any(rd is y for rd in reads for y in ast.walk(cur.test)):
+                    on_miss = True
+            if isinstance(cur, ast.ExceptHandler) and cur.type is not None and "KeyError" in norm(cur.type):
+                on_miss = True
+            cur = parent_of.get(cur)
+        if not on_miss:
+            continue
         loop_vars: Set[str] = set()      # targets of the enclosing for-loops: what varies per iteration
         temp_defs: Dict[str, List[ast.AST]] = {}   # names assigned inside the loops: expanded through their definitions
         for lp in loops:
